@@ -320,7 +320,19 @@ func Observe(st ReadStore, d *DAG, refs []string, digests bool) string {
 			if err != nil {
 				fmt.Fprintf(&sb, "digest %s -> err %s\n", n.Name, ErrClass(err))
 			} else {
-				fmt.Fprintf(&sb, "digest %s -> %s %d\n", n.Name, desc.MediaType, desc.Size)
+				// resolve-by-digest answers with the plain descriptor: further members would be a difference
+				var extra []string
+				for k := range desc.Annotations {
+					extra = append(extra, "annotation:"+k)
+				}
+				sort.Strings(extra)
+				if desc.Platform != nil {
+					extra = append(extra, "platform")
+				}
+				if desc.ArtifactType != "" {
+					extra = append(extra, "artifactType")
+				}
+				fmt.Fprintf(&sb, "digest %s -> %s %d %v\n", n.Name, desc.MediaType, desc.Size, extra)
 			}
 		}
 	}
